@@ -143,6 +143,11 @@ def forall_i(n, body, pats=None, name="i"):
     return z3.ForAll([i], z3.Implies(z3.And(0 <= i, i < n), b), patterns=pats(i) if pats else None)
 
 
+def forall_range(lo, hi, body, pats=None, name="k"):
+    k = z3.Int(name + "!q")
+    return z3.ForAll([k], z3.Implies(z3.And(lo <= k, k < hi), body(k)), patterns=pats(k) if pats else None)
+
+
 def be_bytes(n, k):
     """k-byte big-endian representation of n (0 <= n < 256^k)."""
     return smt.cat_all([unit((n / (256 ** (k - 1 - j))) % 256) for j in range(k)])
